@@ -19,6 +19,8 @@ Inductive pexpr :=
 | PComplexOf (ph pat : Z)               (* complex event of this phenomenon/pattern *)
 | PRaiseOn (tss : list Z) (p : pexpr)   (* raises when e.ts is listed, otherwise p *)
 | PFalseOn (tss : list Z) (p : pexpr)   (* False when e.ts is listed, otherwise p *)
+| PRaiseIfGroupGe (g : Z) (n : nat) (p : pexpr)   (* raises when the RUN's history holds >= n events in group g, otherwise p *)
+| PFalseIfGroupGe (g : Z) (n : nat) (p : pexpr)
 | PAnd (a b : pexpr) | POr (a b : pexpr) | PNot (a : pexpr).
 
 Definition of_bool (b : bool) : pres := if b then PTrue else PFalse.
@@ -48,6 +50,8 @@ Fixpoint interp (p : pexpr) (e : ev) (h : history ev) : pres :=
   | PComplexOf ph pat => of_bool ((ev_kind e =? 1) && (ev_ph e =? ph) && (ev_pat e =? pat))
   | PRaiseOn tss q => if existsb (Z.eqb (ev_ts e)) tss then PRaise else interp q e h
   | PFalseOn tss q => if existsb (Z.eqb (ev_ts e)) tss then PFalse else interp q e h
+  | PRaiseIfGroupGe g n q => if Nat.leb n (length (hgroup g h)) then PRaise else interp q e h
+  | PFalseIfGroupGe g n q => if Nat.leb n (length (hgroup g h)) then PFalse else interp q e h
   | PAnd a b => match interp a e h with PTrue => interp b e h | r => r end
   | POr a b => match interp a e h with PFalse => interp b e h | r => r end
   | PNot a => match interp a e h with PTrue => PFalse | PFalse => PTrue | PRaise => PRaise end
